@@ -359,11 +359,21 @@ class DSession:
                   "rm_machines": bool(rm_machines), "rm_jobs": bool(rm_jobs)})
         return out
 
+    _earlier_graph = {}     # builder -> [graph object, node projection, edge projection] of the latest graph built by ANY session
+
     def graph_event(self, builder):
         out, g = _outcome(lambda: build_graph(builder, self.instance))
-        self._ev({"a": "Graph", "builder": builder, "out": out,
-                  "nodes": obsproj.project_graph_nodes(g) if out == "ok" else [],
-                  "edges": obsproj.project_graph_edges(g) if out == "ok" else []})
+        nodes = obsproj.project_graph_nodes(g) if out == "ok" else []
+        edges = obsproj.project_graph_edges(g) if out == "ok" else []
+        # a graph that was built (and judged) earlier - usually for another instance - is still the same graph
+        stable = True
+        for (g0, n0, e0) in DSession._earlier_graph.values():
+            o2, now = _outcome(lambda: (obsproj.project_graph_nodes(g0), obsproj.project_graph_edges(g0)))
+            stable = stable and o2 == "ok" and now[0] == n0 and now[1] == e0
+        if out == "ok":
+            DSession._earlier_graph[builder] = [g, nodes, edges]
+        self._ev({"a": "Graph", "builder": builder, "out": out, "nodes": nodes, "edges": edges,
+                  "earlier_stable": bool(stable)})
 
     def solved_event(self, source="dispatcher"):
         """Solved disjunctive graph of a complete schedule (the dispatcher's, or one
